@@ -7,6 +7,11 @@ answer of the kernel is asked from a ``mc.choice.Chooser`` (index 0 = the defaul
 * ``send``: how many of the offered bytes are accepted, 1..min(len, free)  (default: as many as fit)
 * ``select``/``poll``/``epoll``/loop: the order in which ready descriptors are reported
   (default: ascending fd)
+* abortive ``close`` (SO_LINGER 0 or unread data): how much of the tail of the data (and FIN) the
+  peer has not read yet was still in the send queue and is destroyed by the reset (default: none)
+
+``checks/_c15_conformance.py`` replays recorded real-loopback traces against this model (real must
+be a subset of model); the ENOTCONN rule of ``shutdown`` and the tail loss on reset came from it.
 
 The model only ever *adds* behaviours a real kernel can show (arbitrary partial sends, arbitrary
 ready-set order); it never reports a descriptor writable and then accepts 0 bytes, and it never
